@@ -540,6 +540,9 @@ UNREGISTERED = {
 	"c04_declared_g_b", "c04_declared_b_u", "c04_declared_b_g", "c04_declared_b_b", "c04_declared_u_u",
 	# sparse block index incl. the 32-level coverage union: out of memory; the acceptance/lookup instances (..._accept_*) finish in ~100 s
 	"c16_block_index_sparse_coverage_12_12", "c16_block_index_sparse_coverage_5_12",
+	# update-stage kernel filter_map_properties on a 3-feature layer without tags: symbolic execution explores decode_tag_ids' error paths
+	# (anyhow context + Backtrace drop glue) for every feature: 1200 s / 7 GB without a verdict
+	"c11_filter_map_order_3", "c11_filter_map_order_4",
 	# overlong announced lengths: symbolic execution still explores the accepting path through the boxed sub-reader / from_utf8: 900 s without a verdict
 	"c19_pbf_packed_overlong", "c19_pbf_string_overlong", "c19_pbf_sub_reader_overlong",
 	# ran out of memory / time at the thorough caps
